@@ -214,6 +214,7 @@ func main() {
 	}
 	o := parseOpts(os.Args[2:])
 	scratchRoot = o.scratch
+	setTZ(o.seed)
 	switch os.Args[1] {
 	case "coord":
 		os.Exit(coord(o))
@@ -242,6 +243,29 @@ func main() {
 }
 
 var sitesPath string
+
+// The process time zone is one more seeded choice (the statement of C02 excepts it, so
+// it is the same for every execution of a run, child processes included): a local zone
+// other than UTC separates code that confuses local time with UTC. VERIF_TZ overrides.
+var tzNames = []string{"Asia/Kolkata", "America/New_York", "UTC", "Pacific/Chatham"}
+var curTZ = "UTC"
+var inheritedTZ bool
+
+func setTZ(seed uint64) {
+	name := os.Getenv("VERIF_TZ")
+	inheritedTZ = name != ""
+	if name == "" {
+		name = tzNames[seed%uint64(len(tzNames))]
+	}
+	loc, err := time.LoadLocation(name)
+	if err != nil { // no zone database on this machine: every process falls back alike
+		name, loc = "UTC", time.UTC
+	}
+	time.Local = loc
+	os.Setenv("TZ", name)
+	os.Setenv("VERIF_TZ", name)
+	curTZ = name
+}
 
 func newCtx(o *opts) *Ctx {
 	sitesPath = o.sites
@@ -365,7 +389,7 @@ func spawn(o *opts, extra []string, gomaxprocs int, out string) *exec.Cmd {
 	args := []string{"shard", "-prop", o.prop, "-tier", o.tier, "-seed", fmt.Sprint(o.seed), "-verif", o.verif, "-sites", o.sites, "-scratch", o.scratch, "-out", out}
 	args = append(args, extra...)
 	cmd := exec.Command(os.Args[0], args...)
-	cmd.Env = append(os.Environ(), fmt.Sprintf("GOMAXPROCS=%d", gomaxprocs), "TZ=UTC")
+	cmd.Env = append(os.Environ(), fmt.Sprintf("GOMAXPROCS=%d", gomaxprocs), "TZ="+curTZ)
 	cmd.Stderr = os.Stderr
 	cmd.Stdout = os.Stderr
 	return cmd
@@ -492,7 +516,7 @@ func coord(o *opts) int {
 	}
 	confirm := func(path string) bool { // re-execute the replay file in a fresh process
 		cmd := exec.Command(os.Args[0], "replay", "-file", path, "-verif", o.verif, "-sites", o.sites, "-scratch", o.scratch)
-		cmd.Env = append(os.Environ(), "TZ=UTC")
+		cmd.Env = append(os.Environ(), "TZ="+curTZ)
 		err := cmd.Run()
 		ee, ok := err.(*exec.ExitError)
 		return ok && ee.ExitCode() == 1
@@ -615,6 +639,10 @@ func replay(o *opts) int {
 		fatal("no check for %s", v.Property)
 	}
 	o.prop, o.seed = v.Property, v.Seed
+	if !inheritedTZ {
+		os.Unsetenv("VERIF_TZ")
+		setTZ(v.Seed) // the zone is a function of the seed the violation was found with
+	}
 	c := newCtx(o)
 	simrt.SimPools = true
 	simrt.SingleThreaded = true
